@@ -254,6 +254,27 @@ Theorem C08_restore_reset_proposals_bounded : forall g sv best size self rh st s
 Proof. exact restore_reset_proposals_bounded. Qed.
 Print Assumptions C08_restore_reset_proposals_bounded.
 
+(** ForceResetHeight at or above the LIB height keeps the LIB (and the saved status); strictly
+    below it the LIB falls back to the genesis block.  Hence after a reset at or above the LIB no
+    fork point below the LIB may be reorganised. *)
+Theorem C08_restore_reset_keeps_lib_at_or_below_height : forall g sv best size self rh,
+  let l0 := ls_lib (st_ls (restore g sv best size self)) in
+  (rh <= 0 \/ b_no l0 <= rh ->
+     ls_lib (st_ls (fst (restore_reset g sv best size self rh))) = l0 /\
+     snd (restore_reset g sv best size self rh) = sv) /\
+  (0 < rh < b_no l0 ->
+     ls_lib (st_ls (fst (restore_reset g sv best size self rh))) = genesis_info /\
+     snd (restore_reset g sv best size self rh) = None).
+Proof. exact restore_reset_keeps_lib_at_or_below_height. Qed.
+Print Assumptions C08_restore_reset_keeps_lib_at_or_below_height.
+
+Theorem C08_restore_reset_veto_kept : forall g sv best size self rh f,
+  b_no (ls_lib (st_ls (restore g sv best size self))) <= rh ->
+  f < b_no (ls_lib (st_ls (restore g sv best size self))) ->
+  need_reorganization (st_ls (fst (restore_reset g sv best size self rh))) f = false.
+Proof. exact restore_reset_veto_kept. Qed.
+Print Assumptions C08_restore_reset_veto_kept.
+
 (** ... but it is not always the status computed online (known finding). *)
 Theorem C08_restart_equals_online_refuted :
   exists size self evs,
